@@ -211,6 +211,28 @@ def eval_direct(case, rng, thorough):
         if bool(got) != bool(correct):
             bad.append((fr, f"{'TCP' if case['proto'] == 6 else 'UDP'}/{'IPv6' if case['v6'] else 'IPv4'} packet ({info['len']}B payload, checksum field {info['field']}, correct value "
                             f"{info['good']}, {tclass}): checksum is {'correct' if correct else 'wrong'} but the routine says {'correct' if got else 'wrong'}"))
+        if j % 6 == 0:
+            # the verdict on a packet is a function of that packet alone: right after it, a packet of the OTHER transport protocol between the same two addresses, in
+            # the same direction and with the same transport length (whatever a routine may remember of the packet before it - pseudo header, length - looks the same)
+            tl = len(fr0_l4(fr, case["v6"]))
+            if case["proto"] == 6 and tl >= 8:
+                l4s = ns.udp_datagram(info["src"], info["dst"], info["sp"], info["dp"], rng.randbytes(tl - 8))
+                fn2, name2 = checksums.calculate_checksum_udp, "UDP"
+            elif case["proto"] == 17 and tl >= 20:
+                l4s = ns.tcp_segment(info["src"], info["dst"], info["sp"], info["dp"], rng.randrange(1 << 32), rng.randrange(1 << 32), 0x18, rng.randbytes(tl - 20))
+                fn2, name2 = checksums.calculate_checksum_tcp, "TCP"
+            else:
+                continue
+            fr2 = ns.eth_frame(b"\x02" * 6, b"\x04" * 6, ns.ip_packet(info["src"], info["dst"], 17 if name2 == "UDP" else 6, l4s))
+            units += 1
+            try:
+                got2 = fn2(Packet(fr2, 1.0))
+            except Exception as e:
+                got2 = repr(e)
+            classes.add((case["id"][:14], "sibling", name2, got2 is True))
+            if got2 is not True:
+                bad.append((fr2, f"{name2} packet with a correct checksum, checked right after a {'TCP' if case['proto'] == 6 else 'UDP'} packet between the same addresses with the same transport "
+                                 f"length ({tl}): the routine says {got2!r}"))
     res = {"units": units, "classes": sorted(classes, key=repr), "cls": [case["id"]], "nontrivial": units > 0, "mon": {"calculate_checksum.compared": units},
            "tags": [f"direct:{'tcp' if case['proto'] == 6 else 'udp'}:{'v6' if case['v6'] else 'v4'}"], "sample": {"case": case["id"], "packets": units}}
     if bad:
@@ -218,6 +240,13 @@ def eval_direct(case, rng, thorough):
     else:
         res["v"] = "held"
     return res
+
+
+def fr0_l4(fr, v6):
+    """transport segment of a frame built by mk_packet (no trailer: the caller measures before or the IP length decides)"""
+    if v6:
+        return fr[54:54 + int.from_bytes(fr[18:20], "big")]
+    return fr[34:14 + int.from_bytes(fr[16:18], "big")]
 
 
 def eval_ones(case, rng, thorough):
